@@ -681,6 +681,10 @@ impl<const N: usize, T> CircularBuffer<N, T> {
         let slice = if start < end {
             // Already contiguous; nothing to do
             &mut self.items[start..end]
+        } else if end == 0 {
+            // Already contiguous (the elements extend exactly to the end of the array); nothing
+            // to do
+            &mut self.items[start..]
         } else {
             // Not contiguous; need to rotate
             self.start = 0;
